@@ -211,7 +211,12 @@ class Exporter:
 
                 for node in next_nodes:
                     content = ''
-                    if isinstance(node.token, HeaderToken) and node.token.encoding in options.spine_types:
+                    header_type = self.compute_header_type(node)
+                    if not (header_type is not None
+                            and header_type.encoding in options.spine_types
+                            and (options.spine_ids is None or header_type.spine_id in options.spine_ids)):
+                        pass  # the spine of this node is not exported: neither its header nor its spine operators
+                    elif isinstance(node.token, HeaderToken):
                         content = self.export_token(node, options)
                         non_place_holder_in_row = True
                     elif spine_operation_row:
